@@ -139,6 +139,7 @@ impl Relayer {
         let submission_state_at_startup =
             SubmissionStateAtStartup::new_from_path(&self.submission_state_path).await?;
 
+        #[cfg(not(feature = "verif"))]
         select!(
             () = self.relayer_shutdown_token.cancelled() => return Ok(()),
             init_result = confirm_sequencer_chain_id(
@@ -146,14 +147,40 @@ impl Relayer {
                 self.sequencer_cometbft_client.clone()
             ) => init_result,
         )?;
+        // Verification hook: a harness may supply the stream of latest sequencer heights for this
+        // thread; the CometBFT HTTP client (chain id check, height polling) is then not used.
+        #[cfg(feature = "verif")]
+        let verif_latest_heights = verif_hooks::take_latest_height_stream();
+        #[cfg(feature = "verif")]
+        if verif_latest_heights.is_none() {
+            select!(
+                () = self.relayer_shutdown_token.cancelled() => return Ok(()),
+                init_result = confirm_sequencer_chain_id(
+                    self.sequencer_chain_id.clone(),
+                    self.sequencer_cometbft_client.clone()
+                ) => init_result,
+            )?;
+        }
 
         let last_completed_sequencer_height =
             submission_state_at_startup.last_completed_sequencer_height();
 
+        #[cfg(not(feature = "verif"))]
         let mut latest_height_stream = {
             use sequencer_client::StreamLatestHeight as _;
             self.sequencer_cometbft_client
                 .stream_latest_height(self.sequencer_poll_period)
+        };
+        #[cfg(feature = "verif")]
+        let mut latest_height_stream = {
+            use sequencer_client::StreamLatestHeight as _;
+            match verif_latest_heights {
+                Some(stream) => stream,
+                None => futures::StreamExt::boxed(
+                    self.sequencer_cometbft_client
+                        .stream_latest_height(self.sequencer_poll_period),
+                ),
+            }
         };
 
         let (mut submitter_task, submitter) = spawn_submitter(
@@ -394,6 +421,32 @@ fn report_shutdown(reason: &eyre::Result<&str>) {
     match reason {
         Ok(reason) => info!(reason, "starting shutdown"),
         Err(reason) => error!(%reason, "starting shutdown"),
+    }
+}
+
+#[cfg(feature = "verif")]
+pub(crate) mod verif_hooks {
+    use std::cell::RefCell;
+
+    use futures::stream::BoxStream;
+
+    use super::{
+        Error,
+        SequencerHeight,
+    };
+
+    pub(crate) type LatestHeights = BoxStream<'static, Result<SequencerHeight, Error>>;
+
+    thread_local! {
+        static LATEST_HEIGHTS: RefCell<Option<LatestHeights>> = const { RefCell::new(None) };
+    }
+
+    pub(crate) fn set_latest_height_stream(stream: LatestHeights) {
+        LATEST_HEIGHTS.with(|slot| *slot.borrow_mut() = Some(stream));
+    }
+
+    pub(crate) fn take_latest_height_stream() -> Option<LatestHeights> {
+        LATEST_HEIGHTS.with(|slot| slot.borrow_mut().take())
     }
 }
 
